@@ -609,7 +609,7 @@ package compiler
 // it; the branches go through the visitor before they become fields of the generated object
 // (structural obligation recursion:...branches-are-visited-before-they-become-fields).
 //@ func (*DisjunctionToType).processDisjunction
-//@   property C06
+//@   property C06 C05
 //@   requires pass != nil && visitor != nil && schema != nil && def.Kind == ast.KindDisjunction
 //@   ensures  leaf: result.1 == nil ==> result.0.Kind == ast.KindScalar || result.0.Kind == ast.KindRef
 //@   ensures  resolves: result.1 == nil && result.0.Kind == ast.KindRef ==> result.0.Ref != nil && visitor.newObjects != nil && visitor.newObjects.records.has(refKey(result.0.Ref.ReferredPkg, result.0.Ref.ReferredType))
